@@ -189,15 +189,12 @@ class Representation(RepresentationBaseType):
                 (self.mpd.timeShiftBufferDepth.total_seconds() *
                  self.segmentTemplate.timescale) // seg_duration)
             if num_segments == 0:
-                self.attrs.check_equal(
-                    self.mpd.timeShiftBufferDepth.total_seconds(), 0,
-                    msg='Expected MPD@timeShiftBufferDepth to equal 0 when num_segments == 0')
+                # a timeShiftBufferDepth that is shorter than one segment is
+                # allowed (e.g. a stream that has only just started)
+                self.log.debug(
+                    '%s: timeShiftBufferDepth %s is shorter than one segment',
+                    self.id, self.mpd.timeShiftBufferDepth)
                 return
-            self.attrs.check_greater_than(
-                self.mpd.timeShiftBufferDepth.total_seconds() * self.segmentTemplate.timescale,
-                seg_duration,
-                msg='Expected timeShiftBufferDepth to be greater than one segment')
-            self.elt.check_greater_than(num_segments, 0)
             # TODO: add support for UTCTiming elements
             seg_duration_time = datetime.timedelta(
                 seconds=(seg_duration / float(self.segmentTemplate.timescale)))
@@ -656,7 +653,7 @@ class Representation(RepresentationBaseType):
         self.elt.check_not_none(decode_time, msg='Failed to calculate decode time')
         pos = (self.mpd.availabilityStartTime +
                datetime.timedelta(seconds=(decode_time / float(timescale))))
-        self.elt.check_less_than(
+        self.elt.check_less_than_or_equal(
             pos, now, template=r'Pos {0} is after current time of day {1}')
 
     def check_on_demand_profile(self):
